@@ -249,9 +249,10 @@ func (g *Group) scanStruct(realval reflect.Value, sfield *reflect.StructField, h
 			}
 
 			// Keep the (possibly newly allocated) struct when it declares
-			// options or groups, or when it is a command: its options live
-			// in the command and are not counted in this group
-			if len(g.options)+len(g.groups) != flagCountBefore || mtag.Get("command") != "" {
+			// options or groups, or when it is a command or holds positional
+			// arguments: those live in the command and are not counted in
+			// this group
+			if len(g.options)+len(g.groups) != flagCountBefore || mtag.Get("command") != "" || mtag.Get("positional-args") != "" {
 				realval.Field(i).Set(fld)
 			}
 		}
